@@ -119,6 +119,7 @@ class SymRandom(random.Random):
         self.uniforms = []
         self.samples = []
         self.on_draw = None
+        self.inert = None
         self.last_g_list = []
         self.last_weights = None
         self.last_choice = None
@@ -127,9 +128,17 @@ class SymRandom(random.Random):
         pop = list(population)
         out = []
         self.n += 1
+        tail = []
+        if self.inert is not None and k == len(pop):
+            # symmetry reduction: scripted agents that are known to return [] now (outside their activity window)
+            # have no effect wherever they stand; they are put last in a fixed order
+            tail = [x for x in pop if self.inert(x)]
+            pop = [x for x in pop if not self.inert(x)]
+            k = len(pop)
         for j in range(k):
             c = self.g.choice(f"{self.tag}_perm{self.n}_{j}", len(pop))
             out.append(pop.pop(c))
+        out += tail
         self.samples.append(list(out))
         if self.on_draw:
             self.on_draw("sample", list(out))
